@@ -34,10 +34,10 @@ PROPS = {
                 gen=parse_family('C03', 3000, 40000), flavours=['c'],
                 rule='as C02 with one_parse=0: set of trees denoted by the DAG vs set of translations of all derivations',
                 assumptions=COMMON_ASSUME + ['the sound half of C03 is a theorem about the step model of make_parse (makeParse_all_sound: every tree the all-parses forest denotes is the translation of a derivation of the input, for every accepted grammar and input); the complete half is false of the C code (known finding D9, makeParse_forest_incomplete) and is judged per run with the attribution rule of known_findings.txt']),
-    'C04': dict(level='proof', theorem_modules=['C04', 'PruneC'], min_theorems=20, tags=['C04'], crash_counts=True,
+    'C04': dict(level='proof', theorem_modules=['C04', 'PruneC', 'HeapWf'], min_theorems=26, tags=['C04'], crash_counts=True,
                 gen=parse_family('C04', 3000, 40000), flavours=['c'],
                 rule='random grammars with costs 0-5 (ties included); sentences <= 7 tokens; cost flag on, one_parse in {0,1}, parse_free given or NULL; denoted set vs argmin of total cost over all translations, every cost field vs the additive law',
-                assumptions=COMMON_ASSUME + ['prune theorems are about the Lean pruning model of a forest (Spec/Forest.lean); find_minimal_translation itself (prune_to_minimal with the sign of the cost field as visited flag and the memo table of alternative chains, traverse_pruned_translation, the freeing loop) is modelled step for step on the heap of the make_parse model (Model/PruneC.lean) and proved to denote exactly prune of the unfolded forest, to restore every cost field, and to free exactly the cells that became unreachable, each once (pruneC_denote, pruneC_minimal_all/one, pruneC_costs_restored, pruneC_frees, pruneC_memo_sound) under the decidable heap well-formedness WfHeap, which is checked, not proved, for the heaps make_parse builds; the tie runs both models on the dumped parse list and compares the exported forest and the number of freed blocks']),
+                assumptions=COMMON_ASSUME + ['prune theorems are about the Lean pruning model of a forest (Spec/Forest.lean); find_minimal_translation itself (prune_to_minimal with the sign of the cost field as visited flag and the memo table of alternative chains, traverse_pruned_translation, the freeing loop) is modelled step for step on the heap of the make_parse model (Model/PruneC.lean) and proved to denote exactly prune of the unfolded forest, to restore every cost field, and to free exactly the cells that became unreachable, each once (pruneC_denote, pruneC_minimal_all/one, pruneC_costs_restored, pruneC_frees, pruneC_memo_sound) under the heap well-formedness WfHeap, which is proved for every heap the make_parse model builds on the parse list of an accepted input (makeParse_heap_wf; acyclicity from a rank by span length and unit steps); accepted_cost_parse composes the chain for every accepted grammar and sentence: every tree of the forest is a translation, the pruned result denotes exactly the minimal-cost trees of the forest make_parse built (not of all translations: D9) with accumulated cost fields, and the freed cells are exactly those that became unreachable, each once; totality of the all-parses run is a hypothesis there (proved for one-parse mode only); the tie runs both models on the dumped parse list and compares the exported forest and the number of freed blocks']),
     'C06': dict(level='proof', theorem_modules=['C06', 'C01'], min_theorems=12, tags=['C06'], crash_counts=True,
                 gen=parse_family('C06', 3000, 40000, maxlen=9), flavours=['c'],
                 rule='grammars with and without error rules; non-sentences (mutated sentences, prefixes, random strings); recovery off (exact argument tuple) and on (well-formedness of every callback, strictly increasing error tokens, first error token = model)',
@@ -90,7 +90,7 @@ PROPS = {
                 assumptions=['partial by nature: absence of sanitizer reports on the explored inputs, not a proof of memory safety of the pointer code',
                              'Lean carries only the decision logic behind bounds (recovery index arithmetic is validated by the C06/C07 checks, containers by C19)'],
                 technique='sanitizer-instrumented exploration driven by the same generators; Lean theorems only for the modelled index/bounds logic (partial)'),
-    'C13': dict(level='proof', theorem_modules=['C13', 'PruneC'], min_theorems=20, tags=['C13'], crash_counts=True,
+    'C13': dict(level='proof', theorem_modules=['C13', 'PruneC', 'HeapWf'], min_theorems=24, tags=['C13'], crash_counts=True,
                 gen=lambda seed, tier: gen.gen_history_cases(seed, 4000 if tier == 'thorough' else 1000) +
                                        gen.gen_parse_cases(seed + 7, 6000 if tier == 'thorough' else 1500, 'C13'), flavours=['c'],
                 rule='every caller-side parse_alloc / parse_free / termcb event of every parse is logged with block ids: frees must hit live blocks of the same parse exactly once, everything reachable from the root must lie in live blocks (walk before and after yaep_free_grammar under ASan with real frees), yaep_free_tree must release all blocks of the parse and call termcb once per TERM node; definitions are handed over as heap copies that are scribbled and freed right after the defining call',
